@@ -199,22 +199,24 @@ def rule_OP3(ctx, rep):
     if len(wt) != 1 or len(rd) != 1:
         raise AnalysisError('OP3: int.to_bytes / int.from_bytes calls not found')
 
-    def width(fn, e):
-        v = astq.resolve_value(fn.node, e)
-        return norm(v)
-    ww, wo = width(tb, wt[0].args[0]), norm(wt[0].args[1])
+    from . import routes, sem
+    pmt, pmf = parents(tb.node), parents(fb.node)
+
+    def width(fn, e, use, pm):
+        return norm(routes.xp(fn, e, use, pm))
+    ww, wo = width(tb, wt[0].args[0], wt[0], pmt), norm(wt[0].args[1])
     sl = rd[0].args[0]
     step = None
     for c in iter_nodes(fb.node):
         if isinstance(c, ast.Call) and attr_tail(c.func) == 'range' and len(c.args) == 3:
-            step = width(fb, c.args[2])
+            step = width(fb, c.args[2], c, pmf)
     rw = None
-    if isinstance(sl, ast.Subscript) and isinstance(sl.slice, ast.Slice):
-        lo, hi = to_lin(sl.slice.lower, opaque=False), to_lin(sl.slice.upper, opaque=False)
+    if isinstance(sl, ast.Subscript) and isinstance(sl.slice, ast.Slice) and sl.slice.lower is not None and sl.slice.upper is not None:
+        lo, hi = routes.lin(fb, sl.slice.lower, rd[0], pmf), routes.lin(fb, sl.slice.upper, rd[0], pmf)
         if lo is not None and hi is not None:
             d = hi - lo
-            if len(d.t) == 1 and d.c == 0:
-                rw = width(fb, ast.Name(id=list(d.t)[0], ctx=ast.Load()))
+            if len(d.t) == 1 and d.c == 0 and list(d.t.values())[0] == 1:
+                rw = list(d.t)[0].strip('<>')
     ro = norm(rd[0].args[1]) if len(rd[0].args) > 1 else None
     if ww == rw == step and wo == ro:
         rep.ok('OP3', fb, rd[0], f'both directions use {ww} bytes per element, byte order {wo}')
@@ -228,8 +230,13 @@ def rule_OP3(ctx, rep):
             v = bl[0].value
             if isinstance(v, ast.BinOp) and ((isinstance(v.op, ast.RShift) and const_int(v.right) == 3) or (isinstance(v.op, ast.FloorDiv) and const_int(v.right) == 8)):
                 inner = v.left
-                if isinstance(inner, ast.BinOp) and isinstance(inner.op, ast.Add) and const_int(inner.right) == 7 and norm(inner.left).endswith('.order.bit_length()'):
-                    good = True
+                if isinstance(inner, ast.BinOp) and isinstance(inner.op, ast.Add) and const_int(inner.right) == 7 and isinstance(inner.left, ast.Call) \
+                        and isinstance(inner.left.func, ast.Attribute) and inner.left.func.attr == 'bit_length' and not inner.left.args:
+                    recv = inner.left.func.value
+                    pmx = parents(fn.node)
+                    ordv = [s_.value for s_ in iter_nodes(fn.node) if isinstance(s_, ast.Assign) and norm(s_.targets[0]).endswith('.order')]
+                    if norm(recv).endswith('.order') or (ordv and cnorm(routes.xp(fn, recv, bl[0], pmx)) == cnorm(routes.xp(fn, ordv[0], bl[0], pmx))):
+                        good = True
         if good:
             rep.ok('OP3', fn, bl[0], 'byte length = ceil(order.bit_length() / 8): every element fits')
         else:
@@ -265,16 +272,38 @@ def rule_OP3(ctx, rep):
         else:
             rep.bad('OP3', red, st, 'pickled state does not restore slot `value` from self.value')
     pi = model.func('finfields::PrimeFieldElement.__int__')
-    ifs = [i for i in iter_nodes(pi.node) if isinstance(i, ast.If)]
-    if ifs and norm(ifs[0].test) == 'self.is_signed' and 'signed_()' in norm(ifs[0].body[0]) and 'unsigned_()' in norm(ifs[0].orelse[0]):
-        rep.ok('OP3', pi, ifs[0].test, 'signed view for signed fields, unsigned view otherwise')
+    pmi = parents(pi.node)
+    views = set()
+    for r in iter_nodes(pi.node):
+        if isinstance(r, ast.Return) and r.value is not None:
+            for cx, v in sem.guarded_values(pi, r.value, r, pmi, ctx=sem._ctx_of(pi, r, pmi)):
+                views.add((tuple(sorted(x for x in cx if 'is_signed' in x[0])), norm(v)))
+    if views == {((('self.is_signed', True),), 'self.signed_()'), ((('self.is_signed', False),), 'self.unsigned_()')}:
+        rep.ok('OP3', pi, 'self.is_signed', 'signed view for signed fields, unsigned view otherwise', pi.node)
     else:
-        rep.bad('OP3', pi, pi.qualname, '__int__ does not select signed_()/unsigned_() by is_signed', pi.node)
+        rep.bad('OP3', pi, pi.qualname, f'__int__ does not select signed_()/unsigned_() by is_signed (found {sorted(views)})', pi.node)
     sg = model.func('finfields::PrimeFieldElement.signed_')
-    cond = [i for i in iter_nodes(sg.node) if isinstance(i, ast.If)]
-    okc = cond and cnorm(cond[0].test) in (cnorm_text('v > self.modulus >> 1'), cnorm_text('v > self.modulus // 2')) and any(isinstance(x, ast.AugAssign) and isinstance(x.op, ast.Sub) and norm(x.value) == 'self.modulus' for x in cond[0].body)
+    pms = parents(sg.node)
+    halves = (cnorm_text('self.modulus >> 1 < self.value'), cnorm_text('self.modulus // 2 < self.value'))
+    okc, site = False, sg.qualname
+    # statement form: `if C: v -= modulus`; expression form: `v - modulus if C else v`
+    for i_ in iter_nodes(sg.node):
+        if isinstance(i_, ast.If) and not i_.orelse and any(isinstance(x, ast.AugAssign) and isinstance(x.op, ast.Sub) and norm(routes.xp(sg, x.value, x, pms)) == 'self.modulus'
+                                                              for x in i_.body):
+            if cnorm(routes.xp(sg, i_.test, i_, pms)) in halves:
+                okc, site = True, i_.test
+        if isinstance(i_, ast.IfExp):
+            t = routes.xp(sg, i_.test, i_, pms)
+            a, b = routes.xp(sg, i_.body, i_, pms), routes.xp(sg, i_.orelse, i_, pms)
+            neg = False
+            if isinstance(t, ast.UnaryOp) and isinstance(t.op, ast.Not):
+                t, neg = t.operand, True
+            if neg:
+                a, b = b, a
+            if cnorm(t) in halves and norm(a) == 'self.value - self.modulus' and norm(b) == 'self.value':
+                okc, site = True, i_.test
     if okc:
-        rep.ok('OP3', sg, cond[0].test, 'signed representative: subtract the modulus above modulus/2')
+        rep.ok('OP3', sg, site, 'signed representative: subtract the modulus above modulus/2')
     else:
         rep.bad('OP3', sg, sg.qualname, 'signed_() is not "v - modulus if v > modulus/2"', sg.node)
 
@@ -303,7 +332,10 @@ def rule_OP4(ctx, rep):
                 touches = True
             if isinstance(x, (ast.List, ast.ListComp)):
                 touches = True
-            if isinstance(x, ast.Attribute) and norm(x) == 'self.value':
+            if isinstance(x, ast.Subscript) and norm(x.value) == 'self.value':
+                touches = True
+            if isinstance(x, ast.Call) and isinstance(x.func, ast.Name) and x.func.id in ('len', 'enumerate', 'reversed', 'zip', 'list') and \
+                    any(norm(a) == 'self.value' for a in x.args):
                 touches = True
         n += 1
         fnrec = model.by_node.get(id(m))
